@@ -331,4 +331,36 @@ theorem count_concatSampling (s1 : List Nat) {s2 : List Nat} (h : s2.Nodup) (v :
       have hvy' : ¬ (v = y) := hvy
       simp [hc, List.mem_cons, hvy']
 
+
+/-! ### round 2: additions (nothing above is changed) -/
+
+theorem mem_zip_range {β : Type} {k g : Nat} {l : List β} {b : β} :
+    (g, b) ∈ (List.range k).zip l ↔ g < k ∧ l[g]? = some b := by
+  rw [List.mem_iff_getElem?]
+  constructor
+  · rintro ⟨n, hn⟩
+    rw [List.getElem?_zip_eq_some] at hn
+    obtain ⟨h1, h2⟩ := hn
+    rw [List.getElem?_eq_some_iff] at h1
+    obtain ⟨hlt, heq⟩ := h1
+    rw [List.length_range] at hlt
+    rw [List.getElem_range] at heq
+    simp only at heq h2
+    subst heq
+    exact ⟨hlt, h2⟩
+  · rintro ⟨hg, hb⟩
+    exact ⟨g, List.getElem?_zip_eq_some.2 ⟨List.getElem?_range hg, hb⟩⟩
+
+theorem count_filter_contains (l ids : List Nat) (v : Nat) :
+    (l.filter (fun x => ids.contains x)).count v = if v ∈ ids then l.count v else 0 := by
+  by_cases h : v ∈ ids
+  · simp only [h, if_true]
+    rw [List.count_filter]
+    simpa using h
+  · simp only [h, if_false]
+    rw [List.count_eq_zero]
+    intro hm
+    rw [List.mem_filter] at hm
+    exact h (by simpa using hm.2)
+
 end Rsa.Folds
